@@ -78,3 +78,13 @@ Definition url_resolve (base_scheme base_path reference : str) : join_result :=
 (* what http.rs asks the url crate for *)
 Definition request_target (base_scheme base_path rel : str) : join_result :=
   url_resolve base_scheme base_path (join_rel_enc rel).
+
+(* ---- the server URL itself (HttpSymbolSupplier::new) ---------------------------------------------------------
+   `if !u.ends_with('/') { u.push('/') }` on "<scheme>://<host>/" ++ suffix, then Url::parse: trailing C0 / space
+   trimmed (the leading part is the scheme), TAB / LF / CR dropped, the path ends at the first '?' or '#'. *)
+Definition normalise_suffix (suffix : str) : str :=
+  if last_is is_slash suffix then suffix else match suffix with [] => [] | _ => suffix ++ [47] end.
+Definition server_base_path_of (raw : str) : str :=
+  let inp := filter (fun c => negb (tab_or_nl c)) (rev (drop_while c0_or_space (rev raw))) in
+  path_steps [47] (split_seps (path_part inp)).
+Definition server_base_path (suffix : str) : str := server_base_path_of (normalise_suffix suffix).
